@@ -109,6 +109,57 @@ def api(case, method, default_prior):
     return {"times": [float(x) for x in new.nodes_time], "pm": [float(x) for x in fit.posterior_mean], "fit": fit}
 
 
+KC11 = "K-C11-1:unary-chain-prior-depends-on-node-order"
+
+
+def unary_chain_len2(d):
+    """does the input have two consecutive nodes (parent/child in some tree) that are unary wherever they appear?"""
+    ts = D.ts_from_dict(d)
+    only_unary = set(range(ts.num_nodes))
+    seen = set()
+    for tree in ts.trees():
+        for u in tree.nodes():
+            if tree.num_children(u) != 1:
+                only_unary.discard(u)
+            seen.add(u)
+    only_unary &= seen
+    for tree in ts.trees():
+        for u in only_unary:
+            p = tree.parent(u)
+            if p != -1 and p in only_unary:
+                return True
+    return False
+
+
+def built_priors_differ(base, other, m, default_prior):
+    """is the prior that tsdate builds for the two copies different (through the permutation)?"""
+    import tsdate
+    out = []
+    for c in (base, other):
+        ts = D.ts_from_dict(c["ts"])
+        if default_prior == "pop":
+            out.append(tsdate.build_prior_grid(ts, 1.0, allow_unary=bool(c.get("allow_unary"))))
+        else:
+            out.append(D.built_priors(dict(c, prior_kind=c.get("built_kind", "built")), ts))
+    pa, pb = out
+    if len(pa.timepoints) != len(pb.timepoints) or not np.allclose(pa.timepoints, pb.timepoints, rtol=1e-12):
+        return True
+    return any(not np.allclose(pa[u], pb[m[u]], rtol=1e-9, atol=0) for u in pa.nonfixed_nodes)
+
+
+def classify(base, other, m, default_prior, sig):
+    """the known defect K-C11-1 (prior.py SpansBySamples.second_pass visits unassigned unary nodes in set order,
+    so with allow_unary=True and a chain of >= 2 only-unary nodes the BUILT prior depends on node order) gets its
+    own signature; every other failure keeps the generic one"""
+    try:
+        if default_prior and base.get("allow_unary") and unary_chain_len2(base["ts"]) \
+                and built_priors_differ(base, other, m, default_prior):
+            return KC11
+    except Exception:
+        pass
+    return sig
+
+
 def rel(a, b):
     if a is None or b is None:
         return 0.0 if a is b else math.inf
@@ -134,9 +185,11 @@ def oracle_pair(ctx, base, other, m, what, stats):
         worst = 0.0
         for u in range(n):
             worst = max(worst, rel(a["times"][u], b["times"][m[u]]), rel(a["mn"][u], b["mn"][m[u]]))
-        stats["io"] = max(stats.get("io", 0.0), worst)
+        if worst <= TOL:
+            stats["io"] = max(stats.get("io", 0.0), worst)
         if not worst <= TOL:
-            ctx.oracle_fail("inside_outside/" + tag, "dates change by %.3g under %s" % (worst, what),
+            ctx.oracle_fail(classify(base, other, m, default_prior, "inside_outside/" + tag),
+                            "dates change by %.3g under %s (%s)" % (worst, what, tag),
                             dict(rp, base_times=a["times"], transformed_times=b["times"]))
         # ---- maximization
         try:
@@ -150,7 +203,7 @@ def oracle_pair(ctx, base, other, m, what, stats):
             worst = max(rel(a["times"][u], b["times"][m[u]]) for u in range(n))
             stats["max"] = max(stats.get("max", 0.0), worst)
             if not worst <= TOL:
-                ctx.oracle_fail("maximization-constrained/" + tag,
+                ctx.oracle_fail(classify(base, other, m, default_prior, "maximization-constrained/" + tag),
                                 "same timepoints but returned times differ by %.3g under %s" % (worst, what), rp)
         else:
             # numerically tied timepoints may be broken differently: the transformed run's choice, mapped
@@ -163,7 +216,8 @@ def oracle_pair(ctx, base, other, m, what, stats):
             bad = [("?", "off grid")] if None in idx_back else D.rule_check(
                 cc, D.inside_rows(a["fit"], n), idx_back, tol=1e-9)
             if bad:
-                ctx.oracle_fail("maximization/" + tag, "timepoints change under %s and are not tied: %r" % (what, bad[:2]),
+                ctx.oracle_fail(classify(base, other, m, default_prior, "maximization/" + tag),
+                                "timepoints change under %s and are not tied: %r (%s)" % (what, bad[:2], tag),
                                 dict(rp, base_pm=a["pm"], transformed_pm=b["pm"]))
             else:
                 ctx.tally("maximization/tie-broken-differently")
